@@ -68,7 +68,7 @@ Fixpoint strcmp_m (ct : cty) (l r : list Z) : res Z :=
 
 (* detail::strncmp: while (count-- > 0) { u1 = *lhs++; u2 = *rhs++; if (u1 != u2) return cstr_compare(u1, u2);
                                           if (u1 == 0) return 0; }  return 0 *)
-Fixpoint strncmp_m (ct : cty) (l r : list Z) (n : nat) : res Z :=
+Fixpoint strncmp_m (ct : cty) (l r : list Z) (n : nat) {struct n} : res Z :=
   match n with
   | O => Ok 0
   | S n' =>
@@ -86,7 +86,7 @@ Fixpoint strncmp_m (ct : cty) (l r : list Z) (n : nat) : res Z :=
   end.
 
 (* detail::memcmp: for (i = 0; i != count; ++i) if (lhs[i] != rhs[i]) return cstr_compare(lhs[i], rhs[i]);  return 0 *)
-Fixpoint memcmp_m (ct : cty) (l r : list Z) (n : nat) : res Z :=
+Fixpoint memcmp_m (ct : cty) (l r : list Z) (n : nat) {struct n} : res Z :=
   match n with
   | O => Ok 0
   | S n' =>
@@ -125,7 +125,7 @@ Definition strrchr_m (ct : cty) (s : list Z) (ch : Z) : res (option nat) :=
 
 (* detail::memchr: for (i = 0; i != n; ++i) if (ptr[i] == ch) return ptr + i;  return nullptr.
    The narrow front end passes static_cast<unsigned char>(ch); wmemchr passes the wchar_t itself. *)
-Fixpoint memchr_loop (p : list Z) (c : Z) (n : nat) : res (option nat) :=
+Fixpoint memchr_loop (p : list Z) (c : Z) (n : nat) {struct n} : res (option nat) :=
   match n with
   | O => Ok None
   | S n' =>
@@ -140,7 +140,7 @@ Definition memchr_m (ct : cty) (p : list Z) (ch : Z) (n : nat) : res (option nat
 
 (* detail::is_legal_char<InclusiveSearch>: for (i = 0; i < len; ++i) if (options[i] == ch) return Inclusive;
                                            return !Inclusive *)
-Fixpoint is_legal_char_m (incl : bool) (opts : list Z) (len : nat) (ch : Z) : res bool :=
+Fixpoint is_legal_char_m (incl : bool) (opts : list Z) (len : nat) (ch : Z) {struct len} : res bool :=
   match len with
   | O => Ok (negb incl)
   | S k =>
@@ -153,7 +153,7 @@ Fixpoint is_legal_char_m (incl : bool) (opts : list Z) (len : nat) (ch : Z) : re
 (* detail::strspn<InclusiveSearch> (true: strspn, false: strcspn):
      length = strlen(dest); srcLen = strlen(src);
      for (i = 0; i < length; ++i) { if (!is_legal_char(src, srcLen, dest[i])) break; ++result; } *)
-Fixpoint spn_loop (incl : bool) (d : list Z) (length : nat) (src : list Z) (srcLen : nat) : res nat :=
+Fixpoint spn_loop (incl : bool) (d : list Z) (length : nat) (src : list Z) (srcLen : nat) {struct length} : res nat :=
   match length with
   | O => Ok O
   | S k =>
@@ -186,7 +186,7 @@ Definition strpbrk_m (s del : list Z) : res (option nat) :=
         if ( *h == 0) return nullptr; } *)
 Inductive pm := PMatch | PEnd | PMismatch.
 
-Fixpoint prefix_m (h n : list Z) : res pm :=
+Fixpoint prefix_m (h n : list Z) {struct n} : res pm :=
   match n with
   | [] => oob
   | b :: n' =>
@@ -227,7 +227,7 @@ Fixpoint strcpy_m (d s : list Z) : res (list Z) :=
   end.
 
 (* second loop of detail::strncpy: for (; counter != count; ++counter) *dest++ = 0 *)
-Fixpoint pad_m (d : list Z) (k : nat) : res (list Z) :=
+Fixpoint pad_m (d : list Z) (k : nat) {struct k} : res (list Z) :=
   match k with
   | O => Ok d
   | S k' =>
@@ -239,7 +239,7 @@ Fixpoint pad_m (d : list Z) (k : nat) : res (list Z) :=
 
 (* detail::strncpy: for (; counter != count and *src != 0;) { *dest++ = *src++; ++counter; }  then the padding loop.
    n = count - counter *)
-Fixpoint strncpy_m (d s : list Z) (n : nat) : res (list Z) :=
+Fixpoint strncpy_m (d s : list Z) (n : nat) {struct n} : res (list Z) :=
   match n with
   | O => Ok d
   | S n' =>
@@ -275,7 +275,7 @@ Definition strcat_m (d s : list Z) : res (list Z) :=
   rbind (strlen_m d) (fun len => rmap (app (firstn len d)) (append_m (skipn len d) s)).
 
 (* loop of detail::strncat: while (localCounter != count && *src != 0) { *ptr++ = *src++; ++localCounter; }  *ptr = 0 *)
-Fixpoint nappend_m (d s : list Z) (n : nat) : res (list Z) :=
+Fixpoint nappend_m (d s : list Z) (n : nat) {struct n} : res (list Z) :=
   match n with
   | O => term_m d
   | S n' =>
@@ -294,7 +294,7 @@ Definition strncat_m (d s : list Z) (n : nat) : res (list Z) :=
   rbind (strlen_m d) (fun len => rmap (app (firstn len d)) (nappend_m (skipn len d) s n)).
 
 (* detail::memcpy: while (n-- != 0) *dp++ = *sp++;   also the loop of the repaired wmemcpy (dest[i] = src[i]) *)
-Fixpoint memcpy_m (d s : list Z) (n : nat) : res (list Z) :=
+Fixpoint memcpy_m (d s : list Z) (n : nat) {struct n} : res (list Z) :=
   match n with
   | O => Ok d
   | S n' =>
@@ -309,7 +309,7 @@ Fixpoint memcpy_m (d s : list Z) (n : nat) : res (list Z) :=
   end.
 
 (* detail::memset: while (n-- != 0) *p++ = static_cast<CharT>(c) *)
-Fixpoint memset_loop (d : list Z) (v : Z) (n : nat) : res (list Z) :=
+Fixpoint memset_loop (d : list Z) (v : Z) (n : nat) {struct n} : res (list Z) :=
   match n with
   | O => Ok d
   | S n' =>
